@@ -61,6 +61,44 @@ CLAIMS = {
              "any additive homogeneous stencil; BCH reduces to v+u for commuting fields at every truncation order. "
              "BCH-error-vs-order and the logv(expv v) bound are approximation statements explored numerically (partial).",
         ref="5 C13"),
+    "C10": dict(
+        technique="Lean 4 theorems: representation conversions are the grid's vector maps; expv is conjugate to one "
+                  "index-space computation in every representation/convention + correspondence of FlowFields.axes/exp/warp",
+        text="9 theorems: axes conversion invertible and path independent for all pairs/triples and equal to the linear part "
+             "of the grid's point map; every representation denotes one index-space displacement; FlowFields.exp (as "
+             "repaired by the fix: commit) denotes the same world-space field whatever representation and align_corners "
+             "convention the input was given in (conjugation lemma, any number of steps); resampling re-expresses vectors "
+             "keeping their world value; warp_image samples at index + index-displacement in every representation; the "
+             "pre-repair method is refuted by a concrete witness.",
+        ref="5 C10"),
+    "C12": dict(
+        technique="Lean 4 theorems on index-function models of the finite-difference stencils, flow_derivatives dictionary "
+                  "loop, jacobian_det/divergence/curl/lie_bracket + correspondence over all modes/keys/spacing forms",
+        text="21 theorems: every finite-difference mode is exact on affine fields (interior for the one-sided padded "
+             "schemes, everywhere for forward_central_backward, margin 1 for sobel/prewitt), any dilation and spacing form; "
+             "second derivatives exact on quadratics in the interior; mixed derivatives symmetric; subset requests return "
+             "the same values; jacobian_det = Matrix.det (D=2,3, with/without identity); divergence = trace; curl; Lie "
+             "bracket of affine fields = (AB-BA)x+(Ab-Ba). B-spline mode is tied by correspondence (its theorem is C14's).",
+        ref="5 C12"),
+    "C14": dict(
+        technique="Lean 4 polynomial identities for the cubic B-spline weight tables, both evaluation algorithms, control "
+                  "grid arithmetic and subdivision masks + exhaustive correspondence over strides 1..16 x orders 0..3 x sizes",
+        text="24 theorems: interpolation weights are the analytic basis (and its derivatives) for every stride; partition of "
+             "unity, derivative weights sum to zero, linear precision; evaluation = analytic spline; linear coefficients "
+             "reproduce the linear function; the two evaluation algorithms agree; control grid covers the image for all "
+             "m,s >= 1; subdivision (masks, repeated, FFD refine crop) leaves the function unchanged. Two clauses the "
+             "current code violates are refuted and listed as known findings.",
+        ref="5 C14"),
+    "C16": dict(
+        technique="Lean 4 theorems on list models of the losses (reductions, masks, NCC/LCC, Dice/Tversky, MI symmetry) + "
+                  "correspondence of functional and module forms",
+        text="41 theorems: mean/sum are the mean/sum of none; masked pointwise losses ignore mask-0 samples and average over "
+             "the mask; norm scaling; pointwise losses zero/range/symmetric; NCC and LCC identical/range (Cauchy-Schwarz)/"
+             "symmetric/affine-invariant with the exact epsilon law; Dice/Tversky identical/symmetric/range and "
+             "Tversky(1/2,1/2) = Dice on binary inputs; MI symmetric for arbitrary window/log. Clauses the current code "
+             "violates (tversky_loss TypeError, ncc mask shape, tversky weight shape, MI mask, NMI class) are refuted and "
+             "listed as known findings. MI/NMI identical/range need properties of log (partial).",
+        ref="5 C16"),
 }
 
 NOT_APPLICABLE = {}
